@@ -70,6 +70,7 @@ type Fact struct {
 	Units    string   `json:"units"`
 	Type     string   `json:"type"`
 	Iff      []string `json:"iff"`
+	Opcfg    bool     `json:"opcfg,omitempty"` // specification side only: an explicit config applies inside an rpc / action / notification
 }
 type flatmap map[string][]Fact
 
@@ -90,6 +91,7 @@ type Case struct {
 	Prog Prog    `json:"prog"`
 	Errs bool    `json:"errs"`
 	Flat flatmap `json:"flat"`
+	Late bool    `json:"late"` // an augment target goes through an implicit case (outside C07's claim)
 	Prop string  `json:"prop"`
 }
 
